@@ -8,5 +8,8 @@ class ParentRealpathFs:
         self.fs = fs
 
     def parent_realpath(self, path):
-        parent = os.path.dirname(path)
+        # 'link/' names the link itself (it is moved as such): do not take
+        # the link, resolved, as its own parent
+        stripped = path.rstrip(os.path.sep) or os.path.sep
+        parent = os.path.dirname(stripped)
         return self.fs.realpath(parent)
